@@ -16,6 +16,8 @@ HAND = [
     'a in b; a instanceof b; \xe9 in b; a\u0301 in b; a in \xe9; typeof \xe9; typeof a; void 0; delete a.b; new a; new a.b(c); new new a;',
     'function f() { return /re/; } function g() { return a; } function h() { return "s"; } function k() { return -1; }',
     'x = /re/ in y; x = /re/g in y; x = /re/ instanceof y; for (k in /re/) ; for (var k in o) ; for (var k = 1 in o) ;',
+    '/x/.test(a)', '/re/g.exec(s); a', '/=/.test(b) ? c : d;',
+    'var p = "C:\\\\tools\\\\\\\nbin"; q = \'a\\\\\\\r\nb\\\\\'; r = "x\\\ny\\\\z";',
     'for (a\u0301 in o) f(a\u0301); for (x\u203f in y) ; for (var i = /x/ in o) ; for (var q\u0301 in o) ; for (a.b\u0301 in o) ;',
     'if (a) b; else c; if (a) { b; } else { c; } if (a) ; else ; do a; while (b); do { a; } while (b) while (1) ; for (;;) ;',
     'while (1); ', 'for (;;); ', 'if (a) ; ', 'l: ; ', 'with (a) ; ', 'while (1) { } ', 'a; {} b;', 'a; { b; } c;',
